@@ -2,6 +2,8 @@
 mod elem;
 mod hist;
 mod kernel;
+mod scalar;
+mod traits;
 
 #[global_allocator]
 static ALLOC: kernel::CountingAlloc = kernel::CountingAlloc;
